@@ -403,35 +403,48 @@ func trunc(s string, n int) string {
 	return s
 }
 
-// Replay re-executes the saved case named by VERIF_REPLAY if it belongs to this spec (plain test, no rapid).
+// Replay re-executes the saved case(s) named by VERIF_REPLAY (a file, or a directory of *.json files) that
+// belong to this spec (plain test, no rapid).
 func Replay[P any](t *testing.T, s Spec[P]) {
 	path := os.Getenv("VERIF_REPLAY")
 	if path == "" {
 		t.Skip("no VERIF_REPLAY")
 	}
+	files := []string{path}
+	if fi, err := os.Stat(path); err == nil && fi.IsDir() {
+		files, _ = filepath.Glob(filepath.Join(path, "*.json"))
+		sort.Strings(files)
+	}
+	for _, f := range files {
+		replayOne(t, s, f)
+	}
+}
+
+func replayOne[P any](t *testing.T, s Spec[P], path string) {
 	b, err := os.ReadFile(path)
 	if err != nil {
 		t.Fatalf("read replay: %v", err)
 	}
 	var rf replayFile
 	if err := json.Unmarshal(b, &rf); err != nil {
-		t.Fatalf("parse replay: %v", err)
+		t.Fatalf("parse replay %s: %v", path, err)
 	}
 	if rf.Property != s.Prop || rf.Check != s.Name {
 		return
 	}
 	var p P
 	if err := json.Unmarshal(rf.Case, &p); err != nil {
-		t.Fatalf("parse case: %v", err)
+		t.Fatalf("parse case %s: %v", path, err)
 	}
 	st := sub(s.Prop, s.Name, s.Rule)
 	f, _ := runOne(&s, st, p, true)
 	mu.Lock()
 	defer mu.Unlock()
+	st.Labels["replayed-saved-cases"]++
 	if f != nil {
 		out.Failures = append(out.Failures, failRec{Prop: s.Prop, Name: s.Name, Sig: f.Sig, Msg: trunc(f.Msg, 4000), Replay: path})
 		flush()
-		t.Errorf("VERIF-FAIL property=%s check=%s sig=%s: %s", s.Prop, s.Name, f.Sig, trunc(f.Msg, 2000))
+		t.Errorf("VERIF-FAIL property=%s check=%s sig=%s replay=%s: %s", s.Prop, s.Name, f.Sig, path, trunc(f.Msg, 2000))
 		return
 	}
 	flush()
